@@ -130,6 +130,35 @@ fn check_transport_contract(cx: &Cx) -> CaseResult {
             now.len()
         );
     }
+    // Writers that overlap in time: of several CreateNew writes of one new path issued
+    // together exactly one succeeds, and the file holds that writer's bytes.
+    for round in 0..12u32 {
+        let name = format!("race{round}");
+        let d2 = dir.clone();
+        let n2 = name.clone();
+        let r = ops::run_op(move |_m| async move {
+            let t = Transport::local(&d2);
+            let payloads: Vec<Vec<u8>> = (0..4u8).map(|i| vec![b'a' + i; 64 + 977 * i as usize]).collect();
+            let (a, b, c, d) = tokio::join!(
+                t.write(&n2, &payloads[0], WriteMode::CreateNew),
+                t.write(&n2, &payloads[1], WriteMode::CreateNew),
+                t.write(&n2, &payloads[2], WriteMode::CreateNew),
+                t.write(&n2, &payloads[3], WriteMode::CreateNew),
+            );
+            Ok(vec![a.is_ok(), b.is_ok(), c.is_ok(), d.is_ok()])
+        });
+        let oks = r.result.unwrap_or_default();
+        let winners: Vec<usize> = oks.iter().enumerate().filter(|(_, ok)| **ok).map(|(i, _)| i).collect();
+        let now = std::fs::read(dir.join(&name)).unwrap_or_default();
+        ensure!(
+            winners.len() == 1 && now == vec![b'a' + winners[0] as u8; 64 + 977 * winners[0]],
+            "C07/create-new-overlapping-writers",
+            "four CreateNew writes of one new path issued together: {} reported success ({oks:?}); the file holds {} bytes starting {:?}",
+            winners.len(),
+            now.len(),
+            now.first().map(|b| *b as char)
+        );
+    }
     Ok(())
 }
 
@@ -234,6 +263,41 @@ fn run_hist(h: &History, cx: &mut Cx) -> CaseResult {
             }
         }
     }
+    // Epilogue for a third of the histories: a block of the newest version is cut to 1-3
+    // bytes (damage), then the unchanged source is backed up again. A damaged file is still a
+    // file that exists: it may be reported, never written over.
+    if h.ops.len() % 3 == 0 {
+        let o = Opts { hunk: 4, block: 256, cap: 100 };
+        let s1 = w.apply(&crate::history::Op::Backup(o));
+        if let StepKind::Backup { report, new_band: Some(nb), .. } = &s1 {
+            if report.clean() {
+                let ra = format::scan(&w.arch);
+                let used: Vec<String> = ra.referenced_hashes(std::iter::once(*nb)).into_iter().collect();
+                let cands: Vec<&format::RawBlock> = used.iter().filter_map(|hsh| ra.blocks.get(hsh)).filter(|b| b.file_len > 3).collect();
+                if !cands.is_empty() {
+                    let victim = cands[(h.ops.len() * 7) % cands.len()];
+                    let keep = 1 + (h.ops.len() / 3) % 3;
+                    let path = w.arch.join(&victim.relpath);
+                    let bytes = std::fs::read(&path).unwrap();
+                    std::fs::write(&path, &bytes[..keep]).unwrap();
+                    let before = format::raw_tree(&w.arch);
+                    let ids_before: Vec<u32> = format::scan(&w.arch).bands.keys().copied().collect();
+                    let s2 = w.apply(&crate::history::Op::Backup(o));
+                    let after = format::raw_tree(&w.arch);
+                    if let StepKind::Backup { log, new_band, report, .. } = &s2 {
+                        ensure!(report.panic.is_none(), "C07/backup-panic", "after a block was cut to {keep} bytes: {}", report.describe());
+                        check_backup_step(h.ops.len() + 1, &before, &after, log, &ids_before, *new_band).map_err(|mut f| {
+                            f.signature = format!("{}/after-block-cut-short", f.signature);
+                            f.message = format!("{} was cut to {keep} bytes before this backup: {}", victim.relpath, f.message);
+                            f
+                        })?;
+                        evals += 1;
+                        cx.label("epilogue:block-cut-short");
+                    }
+                }
+            }
+        }
+    }
     cx.add_evals(evals);
     cx.label("history");
     cx.nontrivial = incremental_or_resumed;
@@ -307,9 +371,27 @@ fn run_race(
                     for p in &pauses {
                         runs.push(Inner {
                             sch: Schedule(vec![(a as u8, *p), (1 - a as u8, u16::MAX)]),
-                            faults: vec![RaceFault { actor: a, verb: Some(V::Write), prefix: "d/".into(), nth: *nth, kind }],
+                            faults: vec![RaceFault { actor: a, verb: Some(V::Write), prefix: "d/".into(), nth: *nth, kind, freeze_torn: false }],
                         });
                     }
+                }
+            }
+        }
+    }
+    // One racer is killed while writing a block (an empty file is left at that path) after
+    // the other one, paused after p operations, has already listed the blocks; the survivor
+    // then carries on and must not take the leftover for its own stored block.
+    {
+        use crate::hooks::{Kind as EK, RaceFault};
+        for a in 0..2usize {
+            let nths = scen::thin(&(0..block_writes[a] as u16).collect::<Vec<_>>(), cx.tier.pick(3, 8));
+            let pauses = scen::thin(&points[1 - a], cx.tier.pick(8, 16));
+            for nth in &nths {
+                for p in &pauses {
+                    runs.push(Inner {
+                        sch: Schedule(vec![(1 - a as u8, *p), (a as u8, u16::MAX)]),
+                        faults: vec![RaceFault { actor: a, verb: Some(V::Write), prefix: "d/".into(), nth: *nth, kind: EK::Other, freeze_torn: true }],
+                    });
                 }
             }
         }
@@ -671,7 +753,7 @@ pub fn prop() -> Prop<Case> {
     Prop {
         id: "C07",
         level: "exploration",
-        rule: "two generated case kinds. Hist: history as C02 with every storage operation logged together with the pre-state of its path and the directory snapshotted (bytes) before/after each step: per backup step (complete, interrupted, resumed) every pre-existing file is still there byte-identical (a zero-length leftover may be completed), the log has no write to a path that held >0 bytes, no path written twice, no remove, and the new id exceeds every id that existed; per delete/gc step removals are confined to requested version directories, blocks unreferenced by the kept versions (independent scan) and GC_LOCK, and nothing is modified or created; plus the transport contract (CreateNew on an existing file fails and leaves it). Race: two backups of differing sources on one archive under the deterministic scheduler: all schedules with <=2 context switches over thinned switch points (quick 10 / thorough 40 per actor) + generated random schedules; every version's files are written by one actor only, nobody writes to an existing non-empty path, pre-existing files unchanged, and every backup that reports success has a closed version that restores to its own source. Non-trivial: history step over an archive that already has a band; race schedule in which both actors list the versions before either creates one. Race schedules distinct by construction, histories by case hash. The transport contract is probed with payloads up to 3 MiB; fixed scale probes per run: a race of two backups sharing a 3 MiB single-block file, and a gc on a 10 015-hunk version",
+        rule: "two generated case kinds. Hist: history as C02 with every storage operation logged together with the pre-state of its path and the directory snapshotted (bytes) before/after each step: per backup step (complete, interrupted, resumed) every pre-existing file is still there byte-identical (a zero-length leftover may be completed), the log has no write to a path that held >0 bytes, no path written twice, no remove, and the new id exceeds every id that existed; per delete/gc step removals are confined to requested version directories, blocks unreferenced by the kept versions (independent scan) and GC_LOCK, and nothing is modified or created; a third of the histories end with an epilogue (complete backup, one of its blocks cut to 1-3 bytes, the unchanged source backed up again: the damaged file must not be written over); plus the transport contract (CreateNew on an existing file fails and leaves it; of four CreateNew writes of one new path issued together exactly one succeeds and its bytes are what the file holds). Race: two backups of differing sources on one archive under the deterministic scheduler: all schedules with <=2 context switches over thinned switch points (quick 10 / thorough 40 per actor) + generated random schedules; every version's files are written by one actor only, nobody writes to an existing non-empty path, pre-existing files unchanged, and every backup that reports success has a closed version that restores to its own source. Non-trivial: history step over an archive that already has a band; race schedule in which both actors list the versions before either creates one. Race schedules distinct by construction, histories by case hash. The transport contract is probed with payloads up to 3 MiB; fixed scale probes per run: a race of two backups sharing a 3 MiB single-block file, and a gc on a 10 015-hunk version",
         assumptions: &[
             "interleavings are at transport-operation granularity on sequentially consistent local storage",
         ],
